@@ -5,7 +5,7 @@
    code WITH the fixes patches/C04-fix-1..10 applied (each defect was first reproduced on the unfixed code). *)
 From Coq Require Import List ZArith NArith Bool.
 From SV Require Import Gen.Consts Model.Footer Model.HostileTree Model.HostileRead Model.Hostile.
-From SV Require Import Model.HostileDb Proofs.Footer Proofs.HostileTree Proofs.HostileRead Proofs.HostileDb.
+From SV Require Import Model.HostileChunk Model.HostileDb Proofs.Footer Proofs.HostileTree Proofs.HostileRead Proofs.HostileDb Proofs.HostileChunk.
 Import ListNotations.
 
 (* Every footer parser (eStargz, legacy stargz, zstd:chunked, external TOC), on every byte string [p] of every length
@@ -74,6 +74,32 @@ Theorem C04_db_store_total :
   forall es : list entry, db_run es <> Panic /\ db_run es <> OutOfFuel.
 Proof. exact db_run_total. Qed.
 Print Assumptions C04_db_store_total.
+
+(* sort.Search as implemented (explicit loop, fuel n+1) with a predicate that does not panic on [0,n): ends, answers in [0,n]. *)
+Theorem C04_sort_search_total :
+  forall (f : Z -> option bool) (n : Z),
+    (0 <= n)%Z -> (forall h, (0 <= h < n)%Z -> f h <> None) ->
+    exists r, sort_search n f = Ok r /\ (0 <= r <= n)%Z.
+Proof. intros f n. exact (sort_search_spec f n). Qed.
+Print Assumptions C04_sort_search_total.
+
+(* ChunkEntryForOffset of both stores on EVERY chunk table (unsorted, overlapping, duplicated, any int64 numbers) and every
+   offset: the predicate indexes only inside the table, the result index is used only when < len. *)
+Theorem C04_chunk_lookup_total :
+  forall (first : chunk) (ents : list chunk) (off : Z),
+    (esgz_chunk_entry first ents off <> Panic /\ esgz_chunk_entry first ents off <> OutOfFuel)
+    /\ (db_chunk_entry ents off <> Panic /\ db_chunk_entry ents off <> OutOfFuel).
+Proof. intros first ents off. split; [exact (esgz_chunk_entry_total first ents off)|exact (db_chunk_entry_total ents off)]. Qed.
+Print Assumptions C04_chunk_lookup_total.
+
+(* The entry selection of fileReader.ReadAt (estargz: at least one entry, as getChunks guarantees; db: any table, also empty)
+   for every size and offset: ents[i] and ents[i-1] are always in range (no index -1 after sort.Search). *)
+Theorem C04_filereader_select_total :
+  forall (size : Z) (ents : list chunk) (off : Z),
+    (ents <> [] -> esgz_read_select size ents off <> Panic /\ esgz_read_select size ents off <> OutOfFuel)
+    /\ (db_read_select size ents off <> Panic /\ db_read_select size ents off <> OutOfFuel).
+Proof. intros size ents off. split; [exact (esgz_read_select_total size ents off)|exact (db_read_select_total size ents off)]. Qed.
+Print Assumptions C04_filereader_select_total.
 
 (* file.ReadAt never loops forever: for every chunk lookup function (any int64 pairs: gaps, overlaps, empty, negative,
    unsorted, wrapping chunks), every cache behaviour, every payload read result and verification result, every offset
@@ -163,4 +189,12 @@ Example C04_db_nonvacuous :
   db_run [mkEntry [0] TDir []; mkEntry [0; 1] THardlink [0]] = Ok (2, [([1], 0); ([0], 0)])
   /\ db_run [mkEntry [0] TChunk []] = Err
   /\ db_run [mkEntry [0] THardlink [5]] = Err.
+Proof. vm_compute. repeat split. Qed.
+
+(* chunk selection: first chunk offset non-zero is an error, not index -1; a tiling table selects the containing chunk *)
+Example C04_chunk_nonvacuous :
+  esgz_read_select 50 [(10, 10); (20, 10)]%Z 5 = Err
+  /\ db_read_select 50 [(10, 10); (20, 10)]%Z 5 = Err
+  /\ esgz_read_select 50 [(0, 10); (10, 10); (20, 10)]%Z 15 = Ok 1%Z
+  /\ db_chunk_entry [(0, 10); (10, 10); (20, 10)]%Z 15 = Ok (Some (10, 10)%Z).
 Proof. vm_compute. repeat split. Qed.
